@@ -13,11 +13,16 @@ Record obs := {
   ob_lastby : list (Z * Z);                     (* key 0x23, sorted by oracle id *)
   ob_atts : list ((Z * Z) * (bool * list Z));   (* key 0x17: (nonce, class) -> observed, votes in store order; sorted by key *)
   ob_pending : list Z;                          (* key 0x54 nonces, ascending *)
-  ob_oracles : list (Z * (Z * bool * Z * Z))    (* key 0x12: id -> stake, online, bridger id, slash times; sorted *)
+  ob_oracles : list (Z * (Z * bool * Z * Z * Z)); (* key 0x12: id -> stake, online, bridger id, slash times, start height; sorted *)
+  (* what the end blocker reads: oracle sets / batches (by block) / bridge calls as (key, height, confirming external ids
+     ascending), the three slashing cursors, the signed window *)
+  ob_osets : list (Z * Z * list Z); ob_batches : list (Z * Z * list Z); ob_bcalls : list (Z * Z * list Z);
+  ob_cursors : Z * Z * Z; ob_window : Z
 }.
 
-Definition mk_obs a lo t lb ats pe os : obs :=
-  {| ob_acc := a; ob_lastobs := lo; ob_total := t; ob_lastby := lb; ob_atts := ats; ob_pending := pe; ob_oracles := os |}.
+Definition mk_obs a lo t lb ats pe os osets batches bcalls cur w : obs :=
+  {| ob_acc := a; ob_lastobs := lo; ob_total := t; ob_lastby := lb; ob_atts := ats; ob_pending := pe; ob_oracles := os;
+     ob_osets := osets; ob_batches := batches; ob_bcalls := bcalls; ob_cursors := cur; ob_window := w |}.
 
 Definition mk_cfg (thr mul frac : Z) (unbond_del cursor_clamp : bool) : cfg :=
   {| c_threshold := thr; c_multiple := mul; c_slashfrac := frac;
@@ -26,12 +31,14 @@ Definition mk_cfg (thr mul frac : Z) (unbond_del cursor_clamp : bool) : cfg :=
 (* light observation (long histories print the full projection only every few operations):
    lists left empty and ob_acc + 10 *)
 Definition mk_light (a lo t : Z) : obs :=
-  {| ob_acc := a + 10; ob_lastobs := lo; ob_total := t; ob_lastby := []; ob_atts := []; ob_pending := []; ob_oracles := [] |}.
+  {| ob_acc := a + 10; ob_lastobs := lo; ob_total := t; ob_lastby := []; ob_atts := []; ob_pending := []; ob_oracles := [];
+     ob_osets := []; ob_batches := []; ob_bcalls := []; ob_cursors := (0, 0, 0); ob_window := 0 |}.
 
 (* no observation: the operation is an internal stage of one real operation (a block boundary = Mature; SlashPass;
    Refresh), only the state after the last stage is visible *)
 Definition mk_skip : obs :=
-  {| ob_acc := 20; ob_lastobs := 0; ob_total := 0; ob_lastby := []; ob_atts := []; ob_pending := []; ob_oracles := [] |}.
+  {| ob_acc := 20; ob_lastobs := 0; ob_total := 0; ob_lastby := []; ob_atts := []; ob_pending := []; ob_oracles := [];
+     ob_osets := []; ob_batches := []; ob_bcalls := []; ob_cursors := (0, 0, 0); ob_window := 0 |}.
 
 Record hist := { h_cfg : cfg; h_ops : list (op * obs) }.
 Definition mk_hist (c : cfg) (l : list (op * obs)) : hist := {| h_cfg := c; h_ops := l |}.
@@ -61,11 +68,19 @@ Definition zz_eqb (a b : Z * Z) : bool := (fst a =? fst b) && (snd a =? snd b).
 Definition att_eqb (a b : (Z * Z) * (bool * list Z)) : bool :=
   zz_eqb (fst a) (fst b) && Bool.eqb (fst (snd a)) (fst (snd b)) && list_eqb Z.eqb (snd (snd a)) (snd (snd b)).
 
-Definition orc_eqb (a b : Z * (Z * bool * Z * Z)) : bool :=
+Definition orc_eqb (a b : Z * (Z * bool * Z * Z * Z)) : bool :=
   match a, b with
-  | (i, (s1, on1, b1, t1)), (j, (s2, on2, b2, t2)) =>
-      (i =? j) && (s1 =? s2) && Bool.eqb on1 on2 && (b1 =? b2) && (t1 =? t2)
+  | (i, (s1, on1, b1, t1, h1)), (j, (s2, on2, b2, t2, h2)) =>
+      (i =? j) && (s1 =? s2) && Bool.eqb on1 on2 && (b1 =? b2) && (t1 =? t2) && (h1 =? h2)
   end.
+
+Fixpoint insZ (x : Z) (l : list Z) : list Z :=
+  match l with [] => [x] | y :: r => if x <=? y then x :: l else y :: insZ x r end.
+Definition sortZ (l : list Z) : list Z := fold_right insZ [] l.
+Definition obj_eqb (a b : Z * Z * list Z) : bool :=
+  match a, b with (k1, h1, c1), (k2, h2, c2) => (k1 =? k2) && (h1 =? h2) && list_eqb Z.eqb c1 c2 end.
+Definition view_objs (l : list EB.obj) : list (Z * Z * list Z) :=
+  map (fun x => (EB.ob_key x, EB.ob_height x, sortZ (EB.ob_confirms x))) l.
 
 Definition res_class (r : res) : Z := match r with Ok => 0 | Err _ => 1 | Panic => 2 end.
 
@@ -74,7 +89,7 @@ Definition view_lastby (s : st) := sort_by Z.leb (last_by s).
 Definition view_atts (s : st) := sort_by kleb (map (fun p => (fst p, (a_obs (snd p), a_votes (snd p)))) (atts s)).
 Definition view_pending (s : st) := map fst (sort_by Z.leb (pending s)).
 Definition view_oracles (s : st) :=
-  sort_by Z.leb (map (fun p => (fst p, (o_stake (snd p), o_online (snd p), o_bridger (snd p), o_slash (snd p)))) (oracles s)).
+  sort_by Z.leb (map (fun p => (fst p, (o_stake (snd p), o_online (snd p), o_bridger (snd p), o_slash (snd p), o_start (snd p)))) (oracles s)).
 
 Definition obs_ok (s : st) (r : res) (o : obs) : bool :=
   if 20 <=? ob_acc o then true else
@@ -85,7 +100,12 @@ Definition obs_ok (s : st) (r : res) (o : obs) : bool :=
   && list_eqb zz_eqb (view_lastby s) (ob_lastby o)
   && list_eqb att_eqb (view_atts s) (ob_atts o)
   && list_eqb Z.eqb (view_pending s) (ob_pending o)
-  && list_eqb orc_eqb (view_oracles s) (ob_oracles o).
+  && list_eqb orc_eqb (view_oracles s) (ob_oracles o)
+  && list_eqb obj_eqb (view_objs (e_osets (eb s))) (ob_osets o)
+  && list_eqb obj_eqb (view_objs (e_batches (eb s))) (ob_batches o)
+  && list_eqb obj_eqb (view_objs (e_bcalls (eb s))) (ob_bcalls o)
+  && (match ob_cursors o with (a, b, c) => (e_last_oset (eb s) =? a) && (e_last_batch (eb s) =? b) && (e_last_bcall (eb s) =? c) end)
+  && (e_window (eb s) =? ob_window o).
 
 (* index (from 0) of the first operation after which model and implementation differ, or -1 *)
 Fixpoint first_bad (c : cfg) (s : st) (i : Z) (l : list (op * obs)) : Z :=
